@@ -8,7 +8,7 @@ INFO = {
                    "repetitions; a repeated symbol arrives in a different buffer) the set of available sources equals the source part of spec_peel(H, "
                    "received so far), completion is reported exactly when the closure holds all k sources and never reverts; every available source "
                    "equals the encoded one for all source data; engine invariants (every equation stays a true equation, counters match the matrix)",
-    "assumptions": ["BOUNDED: k + (n-k) <= 10, enumerated sequences (VERIF_SEED selects the shuffles), symbol length 1 byte",
+    "assumptions": ["BOUNDED: k + (n-k) <= 12 (quick 12 codes, thorough 19), enumerated sequences: fixed orders, VERIF_SEED-selected shuffles with repetitions, and DIRECTED histories computed from the matrix (an arrival that brings two equations to the same single unknown, to different unknowns with a cascade, or five or more equations at once); symbol length 1 byte",
                     "the matrix construction is replaced by a stub that builds the constant matrix through the real of_mod2sparse_insert"],
     "trusted": [],
 }
